@@ -6,7 +6,8 @@ The bp updater runs the same two-pass protocol of `Gp/Flip.lean` as memb / mb.  
 `Src/SyncRefine.lean` (same local automaton `Sync.lstep`, same checker state `Sync.SS`, same list-oracle discipline
 `Sync.absExt`, same windows at `mutex_lock(&rcu_registry_lock)`, same labels) with ONE difference: the grace-period
 counter is the object `urcu_bp_gp` (`gpCtr = &urcu_bp_gp.ctr`, the name the static header `urcu/static/urcu-bp.h` uses;
-`urcu-bp.c` says `rcu_gp`, a macro of `urcu/map/urcu-bp.h` for the same object).  `absEv` below is `Sync.absEv` with that
+`urcu-bp.c` says `rcu_gp`, a macro of `urcu/map/urcu-bp.h` for the same object, which the translator resolves in the `bp.`
+unit: the flip of `«bp.urcu_bp_synchronize_rcu»` and the plain read of `«urcu_bp_reader_state»` address the same `Loc`).  `absEv` below is `Sync.absEv` with that
 location; `absRun`, `Ok`, `Holds` and the proof rules are the same definitions / proofs over it (copied: they depend on
 `absEv`).  Everything that does not mention the counter location is reused from `Sync` (`absExt`, `masterAct`, `inList`,
 `curOK`, `Res`, `lrun_env`, `iterate_acc`, the word lemmas `encGp` / `decW`).
